@@ -80,7 +80,12 @@ AttackList == <<
    [AT(<<"d5", "sum">>, Aux3) EXCEPT !.hash = "rp64_256", !.queries = 1],
    [AT(<<"d5", "sum">>, Aux3) EXCEPT !.hash = "rp64_256", !.ext = 2, !.queries = 4, !.blowup = 16, !.rem = 15],
    [AT(<<"cube", "mul2", "sum", "id">>, Aux2) EXCEPT !.log_len = 5, !.rem = 7, !.queries = 2, !.grind = 4],
-   [AT(<<"cube", "mul2", "sum", "id">>, Aux2) EXCEPT !.log_len = 9, !.fold = 4, !.rem = 31, !.queries = 6, !.ext = 2, !.exemptions = 2]
+   [AT(<<"cube", "mul2", "sum", "id">>, Aux2) EXCEPT !.log_len = 9, !.fold = 4, !.rem = 31, !.queries = 6, !.ext = 2, !.exemptions = 2],
+   \* partitioned row hashing: widths that are not multiples of the partition size (a short last partition)
+   [AT(<<"sum", "mul2", "cube", "sum", "id">>, Aux3) EXCEPT !.parts = 2, !.hash_rate = 1],
+   [AT(<<"sum", "mul2", "cube", "sum", "id">>, Aux3) EXCEPT !.parts = 3, !.hash_rate = 2, !.ext = 2],
+   [AT(<<"d5", "sum", "mul2", "cube", "sum", "id", "sum">>, Aux3) EXCEPT !.parts = 2, !.hash_rate = 4, !.hash = "rp64_256"],
+   [AT(<<"d5", "sum", "mul2">>, Aux2) EXCEPT !.parts = 4, !.hash_rate = 8, !.field = "f128", !.ext = 2]
 >>
 AttackOk == \A i \in 1..Len(AttackList) : Supported(AttackList[i])
 EmitAttack == (phase = "field") => \A i \in 1..Len(AttackList) : PrintT(<<"ATTACK", ToJson(CaseOf(AttackList[i]))>>)
